@@ -102,6 +102,10 @@ def run(ctx):
 
     run_batch(ctx, MODULE, CFG, gen(), frames.OBSERVERS, sigfn, negfn)
 
+    # spec growth (judged as notes): the mode gates of the three entry points
+    run_batch(ctx, MODULE, CFG, [("gate", {"api": a, "m": m}) for a in ("reader", "parse", "message") for m in list(range(-3, 9)) + [255, 256, 1 << 30]],
+              frames.OBSERVERS, lambda o, i, ev, v: {"observer": o, "kind": v}, None)
+
     # spec -> code: conforming payloads of every definition (TLC layouts), so that the "accepted" side covers every message type
     from ..drivers import walk
 
@@ -137,7 +141,42 @@ def run(ctx):
             yield ("c01", {"f": fr.hex(), "mode": l["m"], "pbf": 1 if l["pbf"] else 0, "validate": 1, "hist": h})
 
     run_batch(ctx, MODULE, CFG, gen_hist(), frames.OBSERVERS, sigfn, negfn)
+
+    # value relations BETWEEN frames: a frame parsed right after a different frame of the same message and length that has the same
+    # crc32 / adler32 (whole frame, payload) - the digests a result cache would be keyed with.  Found by birthday search
+    from ..common import colliding_frames
+
+    def gen_collide():
+        total = 0
+        for (c, i, n, m) in ((0x01, 0x22, 20, 0), (0x06, 0x08, 6, 1)):
+            for kind, prs in sorted(colliding_frames(rng, c, i, n, want=3 if ctx.thorough else 2).items()):
+                for (fa, fb) in prs:
+                    for (x, y) in ((fa, fb), (fb, fa)):
+                        for (p, v) in ((1, 1), (0, 1), (1, 0)):
+                            total += 1
+                            yield ("c01", {"f": y.hex(), "mode": m, "pbf": p, "validate": v,
+                                           "hist": [{"op": "parse", "f": x.hex(), "mode": m, "pbf": bool(p) if len(y) % 2 else p, "validate": v, "inspect": 1}]})
+        ctx.extra["digest_colliding_pairs"] = total
+
+    run_batch(ctx, MODULE, CFG, gen_collide(), frames.OBSERVERS, sigfn, negfn)
     ctx.extra["hostile_histories"] = len(hists)
+
+    # steady-state concurrency: one thread is suspended after EVERY source line of its parse / serialize / repr inside the library in
+    # turn while another thread handles a different message completely (warmed-up interpreter; then once as the first use)
+    def gen_race():
+        one = [l for l in lays if l["c"] == 1 and l["len"] and 8 <= l["len"] <= 64 and l["pbf"]]
+        if len(one) < 3:
+            return
+        picks = [one[0], one[len(one) // 2], one[-1], one[len(one) // 3]]
+        mk = lambda l: {"f": frame(l["cls"], l["id"], walk.fill(l, "rand", rng, cfgdb)).hex(), "mode": l["m"], "pbf": 1, "validate": 1}  # noqa: E731
+        parts = 8
+        for (a, b, c) in ((picks[0], picks[1], picks[2]), (picks[2], picks[3], picks[0])):
+            racers = [mk(a), mk(b)]
+            for part in range(parts):
+                yield ("race", {"_k": "race:%s:%d" % (a["name"], part), "obs": "frames:c01", "racers": racers, "after": mk(c), "ks": "all", "part": part, "parts": parts, "fresh": 0})
+        yield ("race", {"_k": "race:first-use", "obs": "frames:c01", "racers": [mk(picks[1]), mk(picks[0])], "after": mk(picks[3]), "ks": "all", "part": 0, "parts": 5, "fresh": 1})
+
+    run_batch(ctx, MODULE, CFG, list(gen_race()), frames.OBSERVERS, sigfn, negfn, parallel="threads")
     ctx.extra["definition_layout_frames"] = len(lays)
     ctx.exhaustive = False
     ctx.extra["class_id_pairs"] = len(set(known) | set(allpairs))
